@@ -205,8 +205,9 @@ namespace Givaro {
                                                                             , Residu_t MOD ) const
     {
         Rep W,D;
-        this->gcd(W,this->diff(D,P),P);
         Degree d, dP;
+        if (this->degree(dP,P) < 1) return 0; // zero and constants are not irreducible
+        this->gcd(W,this->diff(D,P),P);
         if (this->degree(d,W) > 0) return 0;
         // Distinct degree free ?
         Rep Unit, G1;
